@@ -118,14 +118,24 @@ impl SharedTaskRunner {
         let (tx, rx) = mpsc::channel();
         let pager = self.inner.pager.clone();
         let coordinator = self.inner.coordinator.clone();
+        #[cfg(feature = "verif")]
+        let verif_done = Arc::new(std::sync::atomic::AtomicBool::new(false));
+        #[cfg(feature = "verif")]
+        let verif_done_job = verif_done.clone();
 
         self.inner.pool.execute(move || {
+            #[cfg(feature = "verif")]
+            let _verif_done = crate::verif::sched::DoneFlag(verif_done_job);
             let ctx = TaskContext::new(pager, coordinator);
             let result = task(&ctx);
             let _ = tx.send(result);
             Ok(())
         })?;
 
+        #[cfg(feature = "verif")]
+        crate::verif::sched::block_until(crate::verif::sched::site::JOB_WAIT, || {
+            verif_done.load(std::sync::atomic::Ordering::SeqCst)
+        });
         rx.recv()
             .map_err(|_| {
                 TaskError::Io(IoError::new(
@@ -145,14 +155,24 @@ impl SharedTaskRunner {
         let (tx, rx) = mpsc::channel::<Result<T, BoxError>>();
         let pager = self.inner.pager.clone();
         let coordinator = self.inner.coordinator.clone();
+        #[cfg(feature = "verif")]
+        let verif_done = Arc::new(std::sync::atomic::AtomicBool::new(false));
+        #[cfg(feature = "verif")]
+        let verif_done_job = verif_done.clone();
 
         self.inner.pool.execute(move || {
+            #[cfg(feature = "verif")]
+            let _verif_done = crate::verif::sched::DoneFlag(verif_done_job);
             let ctx = TaskContext::new(pager, coordinator);
             let result = task(&ctx);
             let _ = tx.send(result);
             Ok(())
         })?;
 
+        #[cfg(feature = "verif")]
+        crate::verif::sched::block_until(crate::verif::sched::site::JOB_WAIT, || {
+            verif_done.load(std::sync::atomic::Ordering::SeqCst)
+        });
         let task_result = rx.recv().map_err(|_| {
             TaskError::Io(IoError::new(
                 ErrorKind::BrokenPipe,
